@@ -1080,6 +1080,32 @@ def c01_writer_graph(case):
                    % (out, n1, n2, case["rings"], sorted(m.bonds), m.faults[:2], x, pub))
     return ok()
 
+
+
+def c06_history(case):
+    try:
+        if not set_table(case["table_a"]):
+            return ok("table A rejected")
+        for s in (case["warm"], case["smiles"]):
+            _enc(s, strict=True)
+        if not set_table(case["table_b"]):
+            return ok("table B rejected")
+        tab = sf.get_semantic_constraints()
+        smi = case["smiles"]
+        r1 = _enc(smi, strict=True)
+        mol = oread.read_smiles(smi)
+        over = [(a.text, oread.explicit_valence(mol, i), oread.capacity(tab, a)) for i, a in enumerate(mol.atoms)
+                if oread.explicit_valence(mol, i) > oread.capacity(tab, a)]
+        if over and r1[0] == "ok":
+            return bad("C06:strict-accepts-violation:after-table-change", "after strict encodes under %s and a switch to %s, encoder(%r, strict=True) succeeds although %s has %s > capacity %s"
+                       % (_short(case["table_a"]), _short(case["table_b"]), smi, over[0][0], over[0][1], over[0][2]))
+        if not over and r1[0] != "ok":
+            return bad("C06:strict-rejects-valid:after-table-change", "after strict encodes under %s and a switch to %s, encoder(%r, strict=True) raises although no atom exceeds its capacity"
+                       % (_short(case["table_a"]), _short(case["table_b"]), smi))
+        return ok()
+    finally:
+        reset_table()
+
 # ---------------------------------------------------------------------------
 
 KINDS = {
@@ -1110,6 +1136,7 @@ KINDS = {
     "kek_order": c05_order,
     "deriv": c02_deriv,
     "writer_graph": c01_writer_graph,
+    "strict_history": c06_history,
     "state_fn": lemma_state_fn,
     "ring_step": lemma_ring_step,
 }
